@@ -62,6 +62,25 @@ chk("C12",
     "real states whose meta range is stale are round-tripped too; random diffuse-field objects.",
     HV_NOTE, "TLA+ state machine model-checked with TLC; every reached real state written/read and compared", "DESIGN.md#c12")
 
+chk("C13",
+    "TLC enumerates every small window list (2 windows x 3 components over 4-5 STA chunk patterns, 6 component subsets, 4 limit "
+    "pairs/thresholds, ratios exactly on a limit kept as ties), checks that the early-exit component loop refines the property-level "
+    "selection, conjunction over components, monotonicity in the limits and per-window decisions; every case is realised as real "
+    "windows and pushed through sta_lta_window_rejection / maximum_value_window_rejection with and without an attached traditional "
+    "or azimuthal result (identity, order, both masks on every azimuth), rescaled by powers of two and window by window; the "
+    "TdReject action of the HvsrObject state machine binds the masks to histories.",
+    "Trusted: TLC; spec/TdReject.tla; exact chunk means by construction (+-level square waves, dt = 0.25 s); STA/LTA lengths are "
+    "fixed (2 s / 4 s on 8 s windows) - other length combinations are not explored.",
+    "TLA+ kernel spec (TdReject) model-checked with TLC; one implementation test per TLC case; HvsrObject transitions replayed", "DESIGN.md#c13")
+chk("C20",
+    "States of the HvsrObject state machine are reached on real traditional / 2-azimuth objects by replaying the TLC transition "
+    "graph; at sampled states every plotting and summary function is called (Agg): each call is recorded as a ReadOnly event and the "
+    "trace validated by TLC (UNCHANGED of every object variable), a deep digest must be identical also when the function raises, and "
+    "the artists (accepted/rejected lines, mean and +-1 std curves, peak markers, fn band, summary table incl. the period row, "
+    "azimuthal peak markers) are compared with the state and with the exact statistics exported by TLC.",
+    HV_NOTE + " Artists are compared as data (style class by colour/width/marker); pixels are out of scope.",
+    "TLC-generated behaviours replayed on real objects; read-only verdict by TLC trace validation; artists vs exact statistics", "DESIGN.md#c20")
+
 def main():
     man = dict(
         version=1,
